@@ -941,7 +941,8 @@ class HistogramBase(abc.ABC):
             else:
                 adapted_self = self + 0 * other
                 adapted_other = 0 * self + other
-                self._coerce_dtype(other.dtype)
+                self._coerce_dtype(adapted_self.dtype)
+                self._coerce_dtype(adapted_other.dtype)
                 self.frequencies = adapted_self.frequencies - adapted_other.frequencies
                 self.errors2 = adapted_self.errors2 + adapted_other.errors2
                 self._missed -= other._missed
